@@ -96,11 +96,14 @@ fn plan(tier: Tier) -> Vec<(Cfg, &'static str)> {
             p.push((by("K1"), "F6c"));
             p.push((by("K1"), "FS"));
             p.push((by("K2"), "F4"));
+            for k in ["K1", "K3"] {
+                p.push((by(k), "F8"));
+            }
         },
         Tier::Thorough => {
             for c in &cs {
-                for f in ["F1", "F2", "F3", "F4", "F5", "F6", "F6c", "FS"] {
-                    if c.target == 1024 && (f == "F2" || f == "F3" || f == "F4") {
+                for f in ["F1", "F2", "F3", "F4", "F5", "F6", "F6c", "FS", "F8"] {
+                    if c.target == 1024 && (f == "F2" || f == "F3" || f == "F4" || f == "F8") {
                         continue;
                     }
                     p.push((c.clone(), f));
